@@ -25,6 +25,8 @@ import extract  # noqa: E402
 LEAN = os.path.join(VERIF, "lean")
 BUILD = build.BUILD
 REPO = os.environ.get("VERIF_REPO", "/repo")
+# evidence/ and replays/ live under /verif unless a run against a scratch tree (seeded defects) redirects them
+OUT = os.environ.get("VERIF_OUT") or os.path.dirname(os.path.dirname(os.path.abspath(__file__)))
 ALLOWED_AXIOMS = {"propext", "Quot.sound", "Classical.choice"}
 FORBIDDEN = re.compile(r"\b(sorry|admit|native_decide|bv_decide|implemented_by|unsafe)\b|^\s*axiom\s|maxHeartbeats\s+0")
 
@@ -33,10 +35,25 @@ def log(*a):
     print(*a, flush=True)
 
 
-def sh(cmd, cwd=None, env=None, timeout=None, stdin=None):
+def _bigstack():
+    # XBW's TrieNode::insert recurses once per byte of a string; under ASan its frames are large
+    # enough for 16 KiB strings to exhaust the default 8 MiB stack, which says nothing about libCSD.
+    import resource
+    soft, hard = resource.getrlimit(resource.RLIMIT_STACK)
+    want = 1 << 30
+    if hard != resource.RLIM_INFINITY:
+        want = min(want, hard)
+    try:
+        resource.setrlimit(resource.RLIMIT_STACK, (want, hard))
+    except Exception:
+        pass
+
+
+def sh(cmd, cwd=None, env=None, timeout=None, stdin=None, bigstack=False):
     try:
         r = subprocess.run(cmd, cwd=cwd, env=env, stdout=subprocess.PIPE, stderr=subprocess.STDOUT,
-                           text=True, timeout=timeout, input=stdin, errors="replace")
+                           text=True, timeout=timeout, input=stdin, errors="replace",
+                           preexec_fn=_bigstack if bigstack else None)
         return r.returncode, r.stdout
     except subprocess.TimeoutExpired as e:
         return 124, (e.stdout or b"").decode(errors="replace") if isinstance(e.stdout, bytes) else (e.stdout or "")
@@ -240,7 +257,7 @@ def run_cases(cases, cfg, rundir, extra_defs=(), tag="", timeout=20, env_extra=N
     def one(p):
         logdir = p + ".logs"
         os.makedirs(logdir, exist_ok=True)
-        rc1, o1 = (0, "") if modelonly else sh([exe, p, "--timeout", str(timeout), "--logdir", logdir], env=env, timeout=3600)
+        rc1, o1 = (0, "") if modelonly else sh([exe, p, "--timeout", str(timeout), "--logdir", logdir], env=env, timeout=3600, bigstack=True)
         rc2, o2 = sh([model, p], timeout=3600)
         return (rc1, o1, rc2, o2)
 
@@ -299,6 +316,13 @@ def load_known():
     return [f for f in json.load(open(p)).get("findings", []) if f.get("status") == "known"]
 
 
+def _lcp(a, b):
+    n = 0
+    while n < len(a) and n < len(b) and a[n] == b[n]:
+        n += 1
+    return n
+
+
 def match_known(known, prop, case, diff):
     """A failing case is suppressed only if a classifier matches it exactly."""
     cid, stream, kind, params, strs, ops = case
@@ -334,6 +358,8 @@ def match_known(known, prop, case, diff):
         if "params" in m and any(str(params.get(k)) != str(v) for k, v in m["params"].items()):
             continue
         if "strings" in m and [s.hex() for s in strs] != m["strings"]:
+            continue
+        if "min_shared_prefix" in m and not any(_lcp(a, b) >= m["min_shared_prefix"] for a, b in zip(sorted(strs), sorted(strs)[1:])):
             continue
         return f
     return None
@@ -392,7 +418,7 @@ def shrink(case, cfg, rundir, predicate_sig, extra_defs=(), tag="", budget=40, p
 
 # --------------------------------------------------------------------------- evidence / replay
 def write_replay(prop, name, payload):
-    d = os.path.join(VERIF, "replays", prop)
+    d = os.path.join(OUT, "replays", prop)
     os.makedirs(d, exist_ok=True)
     p = os.path.join(d, name + ".json")
     with open(p, "w") as f:
@@ -413,8 +439,8 @@ def case_from_json(j):
 
 
 def write_evidence(prop, ev):
-    os.makedirs(os.path.join(VERIF, "evidence"), exist_ok=True)
-    p = os.path.join(VERIF, "evidence", prop + ".json")
+    os.makedirs(os.path.join(OUT, "evidence"), exist_ok=True)
+    p = os.path.join(OUT, "evidence", prop + ".json")
     tmp = p + ".tmp"
     with open(tmp, "w") as f:
         json.dump(ev, f, indent=1)
